@@ -1502,6 +1502,43 @@ def f2_fold(fam, variant):
     return _F2_FOLDS[key]
 
 
+_F3_FOLDS = {}
+
+
+def f3_fold(sep, classes, lit_, name=None):
+    """re.sub('(^|SEP)X1..Xk(?=SEP|$)', r'\\1LIT', s) for k <= 2 and classes that do not match SEP: every
+    SEP-separated component that consists of exactly k characters matching X1..Xk is replaced by LIT.
+    state (j, b1, b2): j = number of characters of the current component held back (still a candidate), or -1 once
+    the component is known not to match (its characters have been copied); b1, b2 = the held-back characters."""
+    key = (sep, classes, lit_, name)
+    if key in _F3_FOLDS:
+        return _F3_FOLDS[key]
+    k = len(classes)
+
+    def buf(j, b1, b2):
+        return T.ite(T.eq(j, 1), T.unit(b1), T.ite(T.eq(j, 2), T.cat(T.unit(b1), T.unit(b2)), T.empty()))
+
+    def step(st, c):
+        j, b1, b2 = st
+        is_sep = T.eq(c, sep)
+        full = T.eq(j, k)
+        can0 = T.AND(T.eq(j, 0), classes[0].contains(c)) if k >= 1 else False
+        can1 = T.AND(T.eq(j, 1), classes[1].contains(c)) if k >= 2 else False
+        extend = T.OR(can0, can1)
+        j2 = T.ite(is_sep, 0, T.ite(extend, j + 1, -1))
+        nb1 = T.ite(T.AND(T.NOT(is_sep), can0), c, b1)
+        nb2 = T.ite(T.AND(T.NOT(is_sep), can1), c, b2)
+        out = T.ite(is_sep, T.cat(T.ite(full, T.lit(lit_), buf(j, b1, b2)), T.unit(c)),
+              T.ite(extend, T.empty(), T.cat(buf(j, b1, b2), T.unit(c))))
+        return (j2, nb1, nb2), out
+    f = T.Fold(name or 'f3_%d' % len(_F3_FOLDS), 3, step, 're.sub family F3')
+    f.init = (0, 0, 0)
+    f.flush = lambda st: T.ite(T.eq(st[0], k), T.lit(lit_), buf(st[0], st[1], st[2]))
+    f.k = k
+    _F3_FOLDS[key] = f
+    return f
+
+
 class PatternMethod(Model):
     def __init__(self, pat, name):
         self.pat, self.name = pat, name
@@ -1533,6 +1570,15 @@ def re_call(I, name, pattern, flags, args, kwargs, node):
                 raise _oos('unsupported replacement template %r' % repl, node)
             f = sub_fold(fam.cls, tmpl)
             return mk_str(f.out((0,), sym_str(s)))
+        if isinstance(fam, RX.F3) and isinstance(repl, str) and len(args) == 2 and not kwargs:
+            tmpl = RX.parse_template(repl)
+            if (tmpl is None or len(tmpl) != 2 or tmpl[0] != ('group', 1) or tmpl[1][0] != 'lit'):
+                raise _oos('unsupported replacement template %r for family F3' % repl, node)
+            if any(k.contains(fam.sep) or k.contains(10) for k in fam.comp_classes) or len(fam.comp_classes) > 2:
+                raise _oos('family F3 with a class that matches the separator or a line break', node)
+            f = f3_fold(fam.sep, tuple(fam.comp_classes), tmpl[1][1])
+            st, out = f.run(f.init, sym_str(s))
+            return mk_str(T.cat(out, f.flush(st)))
         if isinstance(fam, RX.F2) and isinstance(repl, Closure):
             variant = f2_variant(repl)
             if variant is None:
